@@ -423,7 +423,8 @@ fn race_cas<VM: VMBinding>(st: St, args: &[&str]) -> String {
     let o_addr = obj_addr(slot);
     // the environment: another object whose bits share the byte (the neighbouring slot) is
     // marked / logged / pinned … and reset concurrently
-    let nb_addr = obj_addr(slot ^ 1);
+    // (the LOS mark/nursery spec has one 2-bit field per PAGE: its neighbour is the next page's object)
+    let nb_addr = if kind == "los" { o_addr + 4096 } else { obj_addr(slot ^ 1) };
     let barrier = Arc::new(Barrier::new(n + usize::from(env)));
     mmtk::verif::gc::arm_yield(seed | 1);
     let mut handles = vec![];
